@@ -9,11 +9,11 @@ open Sif Sif.Margin
 
 /-- custody a position contributes to side `nat` (true = native) of pool `sym` -/
 def custOf (sym : Asset) (nat : Bool) (m : Mtp) : Nat :=
-  if m.poolSym = sym ∧ decide (m.cust = native) = nat then m.custody else 0
+  if m.poolSym = sym ∧ isNative m.cust = nat then m.custody else 0
 
 /-- liabilities a position contributes to side `nat` of pool `sym` (the side of its collateral) -/
 def liabOf (sym : Asset) (nat : Bool) (m : Mtp) : Nat :=
-  if m.poolSym = sym ∧ decide (m.coll = native) = nat then m.liab else 0
+  if m.poolSym = sym ∧ isNative m.coll = nat then m.liab else 0
 
 def sumBy (f : Mtp → Nat) (l : List Mtp) : Nat := (l.map f).sum
 
@@ -31,12 +31,14 @@ def marginOK (pools : List Pool) (ms : List Mtp) (openCount : Nat) : Bool :=
 def MarginOK (s : State) : Bool := marginOK s.pools s.mtps s.openCount
 
 /-- a position is between the native asset and exactly one other asset -/
-def pairOK (m : Mtp) : Bool := (decide (m.coll = native)) != (decide (m.cust = native))
+def pairOK (m : Mtp) : Bool := isNative m.coll != isNative m.cust
 
-/-- auxiliary invariant (store well-formedness): distinct position keys, distinct pool symbols,
-    ids handed out by the counter, every position a proper pair, the counter below 2^64 -/
+/-- auxiliary invariant (store well-formedness): distinct position keys, distinct pool symbols, no
+    pool of the native asset itself, ids handed out by the counter, every position a proper long
+    pair, the counter below 2^64 -/
 def WF (s : State) : Bool :=
   decide ((s.mtps.map Mtp.key).Nodup) && decide ((s.pools.map (fun p => p.sym)).Nodup) &&
+  s.pools.all (fun p => !isNative p.sym) &&
   s.mtps.all (fun m => decide (m.id ≤ s.mtpCount) && decide (m.id ≠ 0) && pairOK m && decide (m.pos = 1)) &&
   decide (s.mtps.length ≤ s.mtpCount) && decide (s.mtpCount < u64)
 
